@@ -306,7 +306,7 @@ def new_module_constants(tree: ast.Module, rel: str):
     out = {}
     for st in tree.body:
         tg = st.targets[0] if isinstance(st, ast.Assign) and len(st.targets) == 1 else (st.target if isinstance(st, ast.AnnAssign) and st.value is not None else None)
-        if isinstance(tg, ast.Name) and _plain_literal(st.value) and tg.id not in base and stores.get(tg.id) == 1 and tg.id.upper() == tg.id \
+        if isinstance(tg, ast.Name) and _plain_literal(st.value) and not isinstance(st.value, (ast.List, ast.Dict)) and tg.id not in base and stores.get(tg.id) == 1 and tg.id.upper() == tg.id \
                 and any(c.isalpha() for c in tg.id):
             out[tg.id] = ast.unparse(st.value)
     return out
@@ -335,7 +335,8 @@ def inline_new_constants(tree: ast.Module, rel: str, foreign=None):
 
     def one(st):
         tg = st.targets[0] if isinstance(st, ast.Assign) and len(st.targets) == 1 else (st.target if isinstance(st, ast.AnnAssign) and st.value is not None else None)
-        return (tg.id, st.value) if isinstance(tg, ast.Name) and _plain_literal(st.value) else (None, None)
+        # immutable literals only: a list / dict display bound to a name is one shared object, not a value
+        return (tg.id, st.value) if isinstance(tg, ast.Name) and _plain_literal(st.value) and not isinstance(st.value, (ast.List, ast.Dict)) else (None, None)
     for st in tree.body:
         nm, v = one(st)
         if nm and nm not in base and stores.get(nm) == 1 and nm.upper() == nm and any(c.isalpha() for c in nm):
